@@ -27,6 +27,7 @@ import (
 	"os"
 	"path/filepath"
 	"sync"
+	"sync/atomic"
 	"testing"
 	"time"
 
@@ -377,6 +378,63 @@ func c03Responder(t *testing.T, r *verifkit.R, work string) {
 			r.Sample(map[string]any{"phase": "responder", "kinds": len(kinds), "degenerate_keys": len(degenerate)})
 		}
 	})
+	// Concurrent opens: the exit keys TCP / forward opens on their own goroutines, so many
+	// derivations overlap. Every responder key must still equal what a reference initiator
+	// derives (sequentially, afterwards) from the same exchange.
+	r.Cases("responder-concurrent", r.N(6, 60), func(ci int, rng *verifkit.Rand) {
+		const burst = 48
+		type pend struct {
+			kind      c03Kind
+			priv, pub [32]byte
+			req       uint64
+			ch        chan c03Answer
+			id        uint64
+		}
+		ps := make([]*pend, burst)
+		for i := range ps {
+			k := kinds[i%2] // tcp, forward
+			priv, pub := c03Keypair(rng)
+			ps[i] = &pend{kind: k, priv: priv, pub: pub, req: rng.U64() | 1<<42, id: conn.NextStreamID()}
+			ps[i].ch = w.expect(ps[i].id)
+		}
+		var wg sync.WaitGroup
+		for _, p := range ps {
+			wg.Add(1)
+			go func(p *pend) {
+				defer wg.Done()
+				m.nodes[0].a.peerMgr.SendToPeer(exitID, &protocol.Frame{Type: p.kind.OpenType, StreamID: p.id, Payload: p.kind.Build(p.req, p.pub)})
+			}(p)
+		}
+		wg.Wait()
+		matched := 0
+		for _, p := range ps {
+			select {
+			case a := <-p.ch:
+				m.nodes[0].a.peerMgr.SendToPeer(exitID, &protocol.Frame{Type: protocol.FrameStreamClose, StreamID: p.id})
+				if !c03IsAck(a.Type) {
+					continue
+				}
+				rpub, _ := c03AckKey(a.Type, a.Payload)
+				secret, err := crypto.ComputeECDH(p.priv, rpub)
+				evs := ct.byReq(p.req)
+				if err != nil || len(evs) != 1 {
+					r.Violation("responder-concurrent:"+p.kind.Name+":derivation-count", "responder-concurrent", ci, fmt.Sprintf("%d derivations recorded for one open (err=%v)", len(evs), err), nil)
+					continue
+				}
+				if mkKeyFP(crypto.DeriveSessionKey(secret, p.req, p.pub, rpub, true)) != evs[0].FP {
+					r.Violation("responder-concurrent:"+p.kind.Name+":key-mismatch", "responder-concurrent", ci,
+						fmt.Sprintf("%s: with %d opens keyed concurrently the responder derived a different session key than a reference initiator derives from the same exchange (request id %d)", p.kind.Name, burst, p.req), nil)
+				} else {
+					matched++
+				}
+			case <-time.After(20 * time.Second):
+				r.Inconclusive("responder-concurrent: no answer to a crafted open")
+			}
+		}
+		r.Add("responder_acks_with_matching_key", matched)
+		r.Add("concurrent_opens_keyed", burst)
+		r.Eval(fmt.Sprintf("resp-conc/%d/%d", ci, matched), matched > 0)
+	})
 }
 
 // ---------------------------------------------------------------- initiator phase
@@ -610,6 +668,24 @@ func c03MeshPairs(t *testing.T, r *verifkit.R, work string) {
 				ok++
 			}
 			cancel()
+		}
+		// a burst of real tunnels opened at the same instant (initiator and responder
+		// derivations of many tunnels overlap inside one process)
+		{
+			var wg sync.WaitGroup
+			var okc int32
+			for j := 0; j < r.N(32, 96); j++ {
+				p := mkTunnelPlan{ID: uint64(ci)<<20 + 0x1000 + uint64(j), Ingress: 0, Via: []string{"tcp", "forward:fwd-exit"}[j%2], Dest: fmt.Sprintf("127.1.3.%d:%d", 1+j, dest.port), C2S: 300, S2C: 300, Mode: mkModeOrderly, Chunk: 100}
+				wg.Add(1)
+				go func() {
+					defer wg.Done()
+					if cs := mkRunTunnel(m, p, 30*time.Second); cs.DialErr == "" && cs.Got == 300 {
+						atomic.AddInt32(&okc, 1)
+					}
+				}()
+			}
+			wg.Wait()
+			ok += int(okc)
 		}
 		// oracle over the derivation log
 		ct.mu.Lock()
